@@ -42,7 +42,7 @@ impl Prop for C09 {
         ]
     }
     fn cases(tier: Tier) -> u32 {
-        tier.pick(3_000, 100_000)
+        tier.pick(3_000, 400_000)
     }
     fn strategy(tier: Tier) -> BoxedStrategy<Case> {
         let mut p = params(tier);
